@@ -120,6 +120,30 @@ MarkerScen(pk) == MkScen([i \in 1..(Len(pk.ts) + 1) |-> IF i <= Len(pk.ts) THEN 
                          ReqOf(pk.M), pk.e)
 
 (***************************************************************************)
+(* Family "modes" (C08, C02): the engine mode switched by ctl:ruleEngine in *)
+(* the middle of a phase, next to allow / deny: what counts is the mode of *)
+(* the transaction at that moment, not the one the WAF was configured with.*)
+(* n slots of one phase, then a plain rule in that phase and one in the    *)
+(* logging phase.                                                          *)
+(***************************************************************************)
+ModeActs(k) == CASE k = "ctlDet" -> <<[A("ctl") EXCEPT !.s = "ruleEngine", !.op = "DetectionOnly"]>>
+                 [] k = "ctlOn"  -> <<[A("ctl") EXCEPT !.s = "ruleEngine", !.op = "On"]>>
+                 [] k = "ctlOff" -> <<[A("ctl") EXCEPT !.s = "ruleEngine", !.op = "Off"]>>
+                 [] k = "allow"  -> <<AAllow("all")>>
+                 [] k = "allowPhase" -> <<AAllow("phase")>>
+                 [] k = "deny"   -> <<A("deny")>>
+                 [] OTHER        -> << >>
+ModeRule(i, k, p) == MkRule(10 * i, p, <<CondLink(i, ModeActs(k))>>)
+ModePicks(n, engines, slice, slices) ==
+  LET K == {"ctlDet", "ctlOn", "ctlOff", "allow", "allowPhase", "deny", "plain"}
+      T1 == SliceOf(K, slice, slices)
+  IN [ks : {[i \in 1..n |-> IF i = 1 THEN k1 ELSE rest[i]] : k1 \in T1, rest \in [2..n -> K]},
+      M : SUBSET {s_m(i) : i \in 1..(n + 2)}, e : engines]
+ModeScen(pk) == LET n == Len(pk.ks) IN
+  MkScen([i \in 1..(n + 2) |-> IF i <= n THEN ModeRule(i, pk.ks[i], 1) ELSE IF i = n + 1 THEN ModeRule(i, "plain", 1) ELSE ModeRule(i, "plain", 5)],
+         ReqOf(pk.M), pk.e)
+
+(***************************************************************************)
 (* Families for C01.                                                       *)
 (*  "select"  : every target shape (collection x selector x count x        *)
 (*              exclusion) over every small request; the operator is fixed *)
